@@ -276,3 +276,35 @@ Theorem C12_control_point_triads : forall xs uas uss (s : R),
   vdot ua ua = 1 /\ vdot un un = 1 /\ vdot us us = 1 /\ vdot ua us = 0 /\ vdot un ua = 0 /\ vdot un us = 0.
 Proof. exact cp_triad_orthonormal. Qed.
 Print Assumptions C12_control_point_triads.
+
+(* grouping of the half-segments into wings (airplane.py _sort_segments_into_wings, Model/Wings.v): whenever the procedure finishes there
+   are as many wings as half-segments that start a lifting line, the i-th wing begins with the i-th of them, every member is one of the
+   aircraft's half-segments; a half-segment starts a lifting line iff it is not a left half lying against its right half and it either
+   continues nothing or is two-sided on a one-sided parent; a finished wing is closed under one more pass of the while loop; a pass only
+   takes half-segments that no wing had, that start no lifting line themselves and that are continuations. *)
+From MuxV Require Import Model.Wings Proofs.WingsP.
+Theorem C12_wing_grouping : forall segs ws, wings_of segs = Some ws ->
+  length ws = length (originals segs) /\ heads ws (originals segs) /\ List.Forall (List.Forall (fun s => In s segs)) ws.
+Proof. exact wings_spec. Qed.
+Print Assumptions C12_wing_grouping.
+
+Theorem C12_wing_originals : forall segs s, In s (originals segs) <->
+  In s segs /\ skipped s = false /\ (cont s = false \/ (mir s = true /\ pmir s = false)).
+Proof. exact originals_spec. Qed.
+Print Assumptions C12_wing_originals.
+
+Theorem C12_wing_closed : forall fuel origs o jm segs wing assigned w a,
+  grow fuel origs o jm segs wing assigned = Some (w, a) -> pass origs o jm segs w a false = (w, a, false).
+Proof. exact grow_closed. Qed.
+Print Assumptions C12_wing_closed.
+
+Theorem C12_wing_pass_takes_only_free_continuations : forall origs o jm l wing assigned added,
+  let '(_, a, _) := pass origs o jm l wing assigned added in
+  exists new, a = new ++ assigned /\
+    (forall pre s post, new = pre ++ s :: post -> isin s (post ++ assigned) = false /\ isin s origs = false /\ cont s = true).
+Proof. exact pass_fresh. Qed.
+Print Assumptions C12_wing_pass_takes_only_free_continuations.
+
+(* non-vacuity: a two-sided wing with outer panels and a one-sided fin carrying a two-sided T-tail give three wings (Proofs/WingsP.v) *)
+Definition C12_wing_example := wings_example.
+Check C12_wing_example.
